@@ -54,8 +54,8 @@ func topFrame(stack string) string {
 	}
 	for _, m := range frameRe.FindAllStringSubmatch(stack, -1) {
 		f := m[1]
-		if strings.Contains(f, "/fault.") {
-			continue
+		if strings.Contains(f, "/fault.") || strings.Contains(f, "font.table.") {
+			continue // recover plumbing and the byte accessors: name the function that asked for the bytes
 		}
 		f = strings.TrimPrefix(f, "github.com/pdfcpu/pdfcpu/pkg/")
 		return f
@@ -119,6 +119,7 @@ func runOp(op string, data []byte, path string) (class, detail string) {
 		if bytes.HasPrefix(data, []byte("ttcf")) {
 			fn := filepath.Join(dir, "in.ttc")
 			os.WriteFile(fn, data, 0o644)
+			os.MkdirAll(filepath.Join(dir, "out"), 0o755)
 			_, err = font.InstallTrueTypeCollection(filepath.Join(dir, "out"), fn)
 			break
 		}
@@ -126,6 +127,7 @@ func runOp(op string, data []byte, path string) (class, detail string) {
 		e2 := font.InstallFontFromBytes(dir, "y.ttf", data)
 		fn := filepath.Join(dir, "z.ttf")
 		os.WriteFile(fn, data, 0o644)
+		os.MkdirAll(filepath.Join(dir, "out"), 0o755)
 		_, e3 := font.InstallTrueTypeFont(filepath.Join(dir, "out"), fn)
 		if err == nil {
 			err = e2
